@@ -773,6 +773,24 @@ func ArmedTimers() int {
 //go:norace
 func FiredTimers() int { return int(NFired) }
 
+// LastTimerSeq returns the sequence number of the most recently armed timer (0 = none).
+//
+//go:norace
+func LastTimerSeq() int { return int(timerSeq) }
+
+// TimerFired reports whether the timer with the given sequence number has fired.
+//
+//go:norace
+func TimerFired(seq int) bool {
+	for i := int32(0); i < nthreads; i++ {
+		t := threads[i]
+		if t.isTimer && t.wtimer != nil && int(t.wtimer.seq) == seq {
+			return t.wtimer.fired
+		}
+	}
+	return false
+}
+
 // ---- observation API (norace) ----
 
 //go:norace
